@@ -211,3 +211,13 @@ Proof.
   cbv zeta. split; [vm_compute; apply Permutation_rev|]. split; [vm_compute; reflexivity|].
   apply domain_check_sound. vm_compute. reflexivity.
 Qed.
+
+(* An exclusion argument the host-list parser cannot read (too many items between brackets, unbalanced brackets, a
+   reversed range) is never skipped: applying it ends the run with an error, so the hosts it was meant to name are not
+   contacted (fix a928c9f; before it, the word was dropped in silence). *)
+Theorem C02_unreadable_exclusion_refused : forall s arg e, create arg = Err e -> exclude_arg fixed s arg = XErrx.
+Proof. exact exclude_arg_refused. Qed.
+Print Assumptions C02_unreadable_exclusion_refused.
+
+Example C02_unreadable_exclusion_nonvacuous : exists e, create (b_foo ++ [91;49;45;51]) = Err e.   (* "foo[1-3" *)
+Proof. eexists. vm_compute. reflexivity. Qed.
